@@ -262,7 +262,7 @@ class C16(Prop):
     props_file = "Props/C16.v"
     preamble = ("From Coq Require Import List ZArith Bool QArith.\nImport ListNotations.\n"
                 "From PP Require Import Model.C16.\nLocal Open Scope Q_scope.\n")
-    n_cases = (14, 150)
+    n_cases = (14, 60)
     design_ref = "DESIGN.md §5 C16 (certificate tie K, level P-method)"
     level_text = (
         "METHOD-LEVEL Coq theorems plus per-instance certificate validation (translation "
